@@ -181,6 +181,8 @@ fn ro_for_room() -> RO {
     ro.push(Entry { ev: REvent::AddGroup, by: 0, date: t0 });
     ro.push(Entry { ev: REvent::AddGroup, by: 0, date: t0 });
     ro.push(Entry { ev: REvent::AddRight { group: 0, entity: "ns.P".into(), own: true, all: false }, by: 0, date: t0 });
+    // the same group also holds a wildcard right that grants more: the specific right decides for ns.P
+    ro.push(Entry { ev: REvent::AddRight { group: 0, entity: "*".into(), own: true, all: true }, by: 0, date: t0 });
     ro.push(Entry { ev: REvent::AddRight { group: 1, entity: "*".into(), own: true, all: true }, by: 0, date: t0 });
     for k in [1usize, 5, 3] {
         ro.push(Entry { ev: REvent::AddUser { group: 0, key: k, enabled: true }, by: 0, date: t0 });
@@ -201,7 +203,7 @@ async fn make_room(u: &Universe) -> Result<Uid, String> {
         .db
         .mutate_raw(
             r#"mutate { sys.Room { admin:[{verif_key:$a}] authorisations:[
-                {name:"g0" rights:[{entity:"ns.P" mutate_self:true mutate_all:false}] users:[{verif_key:$b},{verif_key:$x},{verif_key:$d}]},
+                {name:"g0" rights:[{entity:"ns.P" mutate_self:true mutate_all:false},{entity:"*" mutate_self:true mutate_all:true}] users:[{verif_key:$b},{verif_key:$x},{verif_key:$d}]},
                 {name:"g1" rights:[{entity:"*" mutate_self:true mutate_all:true}] users:[{verif_key:$c}]}
             ] } }"#,
             Some(p),
